@@ -189,7 +189,14 @@ package dns
 //@ func (dc *ClientDnsConnection) AutodetectFragmentSize
 //@   property C11
 //@   loop 1 vars fragmentRange uint32, max uint32, proposed uint32
-//@   loop 1 decreases int(fragmentRange) + boolInt(max < 300)
+//@   loop 1 decreases int(fragmentRange)
+// the range is halved in every round, whatever the probe's outcome; the search below a size that did not work
+// starts from a range of at most that size, so the proposed size never wraps below zero
+//@   loop 1 invariant proposed >= fragmentRange || (proposed == 768 && fragmentRange == 8192 - 768 && max == 0)        :the_downward_search_cannot_underflow
+//@   loop 1 invariant proposed <= 8192 && fragmentRange <= 8192 && proposed + fragmentRange <= 8192                                                                   :the_upward_search_stays_below_the_limit
+//@   loop 2 vars i int
+//@   loop 2 invariant 0 <= i && i <= 3
+//@   loop 2 decreases 3 - i
 
 //@ func (dc *ClientDnsConnection) CheckFragmentSizeResponse
 //@   property C11
